@@ -70,6 +70,8 @@ def _run_file(f, prog, content, is_s3, fake=None):
                 obs.append(f"D{start},{len(data)},{f.tell()}" + ("" if ok else "!bytes"))
         except (ValueError, OSError):
             obs.append("E")
+        except Exception as e:      # noqa: BLE001 — an error type a local file never raises (e.g. a botocore ClientError escaping)
+            obs.append("X:" + type(e).__name__)
         if fake is not None:
             rngs = [e[2] for e in fake.log[before:] if e[0].startswith("get")]
             if rngs:
